@@ -120,6 +120,11 @@ impl FormMultipartData {
             }
 
             if bytes_read == total_bytes as i128 {
+                // the data ended in the middle of the part headers, there is no body and no end boundary for this part
+                if part.headers.len() > 0 || !current_string_is_empty {
+                    let message = "No end boundary present in the multipart/form-data request body";
+                    return Err(message.to_string());
+                }
                 return Ok(part_list)
             }
 
